@@ -65,6 +65,40 @@ pub fn run(ctx: &Ctx) -> Report {
 			}
 		}
 	}
+	// host kinds that are not token sequences of the alphabet above (IP literals, IPv4), and
+	// values with other delimiters of their component
+	let extra: Vec<(Kind, &str)> = vec![
+		(Kind::Host, "[::1]"), (Kind::Host, "[::]"), (Kind::Host, "[2001:db8::7]"), (Kind::Host, "[v1.a]"), (Kind::Host, "[::ffff:1.2.3.4]"), (Kind::Host, "1.2.3.4"), (Kind::Host, "a.b"),
+		(Kind::UserInfo, "u:p"), (Kind::UserInfo, ":"), (Kind::UserInfo, "u;v=w"),
+		(Kind::Query, "a=b&c=d"), (Kind::Query, "?/"), (Kind::Fragment, "?/"), (Kind::Segment, "a:b@c"), (Kind::Segment, ";p=1"),
+	];
+	for f in Family::BOTH {
+		let mut r = Report::new();
+		let mut vs = Vec::new();
+		for (k, t) in &extra {
+			if !refs.valid(f, *k, t.as_bytes()) {
+				continue;
+			}
+			r.states += 1;
+			for emb in [false, true] {
+				// the embedding template only fits percent-decodable reg-name-like values; skip
+				// embedding where the value cannot sit in the template slot
+				if emb && (*k == Kind::UserInfo && t.contains('@')) {
+					continue;
+				}
+				let e = by_family!(f, c19_case(*k, t.as_bytes(), emb, &oth, &mut vs));
+				r.evaluations += e;
+				r.transitions += e;
+				r.distinct_nontrivial += 1;
+				r.traces += 1;
+			}
+			for v in vs.drain(..) {
+				r.violate(v);
+			}
+		}
+		total.count("extra_component_values", r.states);
+		total.merge(r);
+	}
 	total.info.insert("bounds".into(), json!({"tokens_max": n}));
 	total
 }
